@@ -15,6 +15,7 @@ import (
 	"github.com/vulcand/oxy/v2/internal/holsterv4/clock"
 	"github.com/vulcand/oxy/v2/internal/holsterv4/collections"
 	"github.com/vulcand/oxy/v2/ratelimit"
+	"github.com/vulcand/oxy/v2/utils"
 	"github.com/vulcand/oxy/v2/verifharness/gen"
 	"github.com/vulcand/oxy/v2/verifharness/sim"
 	"github.com/vulcand/oxy/v2/verifharness/vstat"
@@ -45,6 +46,16 @@ func newLimiter(t *rapid.T, rs *ratelimit.RateSet, capacity int) (*ratelimit.Tok
 	return tl, sv
 }
 
+// planExtractor: X-Src is "<source>|<plan>"; only the source identifies the bucket set.
+var planExtractor = utils.ExtractorFunc(func(r *http.Request) (string, int64, error) {
+	src, amt, err := gen.HeaderExtractor.Extract(r)
+	if i := strings.IndexByte(src, '|'); i >= 0 {
+		r.Header.Set("X-Plan", src[i+1:])
+		src = src[:i]
+	}
+	return src, amt, err
+})
+
 // ask sends one request and renders the decision.
 func ask(t *rapid.T, tl *ratelimit.TokenLimiter, sv *served, src string, amt int64) string {
 	req := httptest.NewRequest("GET", "http://x/", nil)
@@ -60,9 +71,10 @@ func ask(t *rapid.T, tl *ratelimit.TokenLimiter, sv *served, src string, amt int
 }
 
 type step struct {
-	at  time.Duration
-	src int
-	amt int64
+	at   time.Duration
+	src  int
+	amt  int64
+	plan int // which shared rate plan the rate extractor hands out for this request (0 = default rates)
 }
 
 func TestC14_RateProjection(t *testing.T) {
@@ -82,11 +94,26 @@ func TestC14_RateProjection(t *testing.T) {
 		for _, r := range rates {
 			gaps = append(gaps, r.Tau(), r.Tau()/3)
 		}
+		// optional: a rate extractor that hands out one of two shared plans, changing per source over time
+		plans := rapid.IntRange(0, 3).Draw(t, "plans") == 0
+		var planSets []*ratelimit.RateSet
+		if plans {
+			for k := 0; k < 2; k++ {
+				pr := gen.Rates(t, false, 5)
+				ps, _ := gen.RateSet(pr)
+				planSets = append(planSets, ps)
+			}
+		}
+		curPlan := make([]int, nsrc)
 		n := rapid.IntRange(2, 150).Draw(t, "nreq")
 		var hist []step
 		var now time.Duration
 		for i := 0; i < n; i++ {
-			hist = append(hist, step{now, rapid.IntRange(0, nsrc-1).Draw(t, "src"), int64(rapid.IntRange(1, 3).Draw(t, "amt"))})
+			src := rapid.IntRange(0, nsrc-1).Draw(t, "src")
+			if plans && rapid.IntRange(0, 9).Draw(t, "switchPlan") == 0 {
+				curPlan[src] = rapid.IntRange(0, 2).Draw(t, "plan")
+			}
+			hist = append(hist, step{now, src, int64(rapid.IntRange(1, 3).Draw(t, "amt")), curPlan[src]})
 			if rapid.IntRange(0, 2).Draw(t, "adv") > 0 {
 				now += rapid.SampledFrom(gaps).Draw(t, "gap")
 			}
@@ -94,6 +121,26 @@ func TestC14_RateProjection(t *testing.T) {
 		run := func(only int) [][]string {
 			clock.Freeze(epoch.Add(phase))
 			tl, sv := newLimiter(t, rs, capacity)
+			if plans {
+				sv2 := &served{}
+				opts := []ratelimit.TokenLimiterOption{ratelimit.ExtractRates(ratelimit.RateExtractorFunc(func(r *http.Request) (*ratelimit.RateSet, error) {
+					switch r.Header.Get("X-Plan") {
+					case "1":
+						return planSets[0], nil
+					case "2":
+						return planSets[1], nil
+					}
+					return rs, nil
+				}))}
+				if capacity > 0 {
+					opts = append(opts, ratelimit.Capacity(capacity))
+				}
+				tl2, err := ratelimit.New(sv2, planExtractor, rs, opts...)
+				if err != nil {
+					t.Fatalf("ratelimit.New: %v", err)
+				}
+				tl, sv = tl2, sv2
+			}
 			out := make([][]string, nsrc)
 			var cur time.Duration
 			for _, s := range hist {
@@ -104,7 +151,7 @@ func TestC14_RateProjection(t *testing.T) {
 				if only >= 0 && s.src != only {
 					continue
 				}
-				out[s.src] = append(out[s.src], ask(t, tl, sv, "s"+strconv.Itoa(s.src), s.amt))
+				out[s.src] = append(out[s.src], ask(t, tl, sv, "s"+strconv.Itoa(s.src)+"|"+strconv.Itoa(s.plan), s.amt))
 			}
 			return out
 		}
@@ -166,10 +213,18 @@ func TestC14_RateCapacityPressure(t *testing.T) {
 		period := rapid.SampledFrom([]time.Duration{10 * time.Second, time.Minute, time.Hour}).Draw(t, "period")
 		avg := int64(rapid.IntRange(1, 4).Draw(t, "avg"))
 		burst := int64(rapid.IntRange(1, 4).Draw(t, "burst"))
+		capacity0 := 0
+		_ = capacity0
 		rates := []gen.Rate{{Period: period, Average: avg, Burst: burst}}
 		rs, _ := gen.RateSet(rates)
 		capacity := rapid.IntRange(1, 4).Draw(t, "capacity")
+		if rapid.IntRange(0, 3).Draw(t, "bigCapacity") == 0 {
+			capacity = rapid.SampledFrom([]int{20, 21, 25, 40, 41, 64}).Draw(t, "capacityBig")
+			period = time.Hour // room for one request per second from every source
+		}
 		nsrc := capacity + rapid.IntRange(1, 3).Draw(t, "extra")
+		rates = []gen.Rate{{Period: period, Average: avg, Burst: burst}}
+		rs, _ = gen.RateSet(rates)
 		phase := time.Duration(rapid.Int64Range(0, int64(time.Second)-1).Draw(t, "phase"))
 		clock.Freeze(epoch.Add(phase))
 		defer clock.Unfreeze()
@@ -178,10 +233,16 @@ func TestC14_RateCapacityPressure(t *testing.T) {
 		var now time.Duration
 		budget := 10*period - 5*time.Second // stay below every entry's own lifetime
 		n := rapid.IntRange(3, 70).Draw(t, "nreq")
+		if capacity >= 20 {
+			n = capacity + rapid.IntRange(3, 40).Draw(t, "nreqBig")
+		}
 		var log []string
 		evictions := 0
 		for i := 0; i < n && now < budget; i++ {
 			src := rapid.IntRange(0, nsrc-1).Draw(t, "src")
+			if capacity >= 20 && i < capacity {
+				src = i // fill the map first
+			}
 			amt := int64(rapid.IntRange(1, int(burst)).Draw(t, "amt"))
 			got := ask(t, sut, sutSv, "s"+strconv.Itoa(src), amt)
 			log = append(log, fmt.Sprintf("+%v s%d x%d -> %s", now, src, amt, got))
